@@ -369,9 +369,52 @@ def _grid_worker(job, chk):
     chk.count("traces_validated_against_impl", nhist)
 
 
+def _grid1_worker(job, chk):
+    """One failure on a time grid: the server fails at 0 and recovers at `th`; traffic on its key at
+    every subset of <= 5 grid times in 0..T.  Reaches single-server histories far deeper than the BFS
+    (eviction, recovery, revival after dead_timeout) at a small cost."""
+    (ra, ie, th, mode), tier = job
+    import itertools
+    cfg = (2, ra, ie, mode)
+    T = 15 if tier == "quick" else 18
+    nhist = 0
+    for size in range(1, 6 if tier == "quick" else 7):
+        for st in itertools.combinations(range(0, T + 1), size):
+            w = World(cfg)
+            w.apply(("fail", 0))
+            now = 0
+            healed = False
+            bad = []
+            for t in st:
+                if t >= th and not healed:
+                    w.apply(("adv", th - now))
+                    now = th
+                    w.apply(("heal", 0))
+                    healed = True
+                if t > now:
+                    w.apply(("adv", t - now))
+                    now = t
+                bad = w.op("get" if (t % 3) else "get_many", 0)
+                if bad:
+                    break
+            nhist += 1
+            chk.add()
+            chk.outcome(("grid1", ra, ie, th, mode, st))
+            for clause, text in bad:
+                chk.violation(f"{clause}|one-failure-grid|ignore_exc={ie}|retry_attempts={ra}|{mode}",
+                              text + f" [h1 fails ({mode}) at 0 and recovers at {th}; operations on its key at times {list(st)}; "
+                              f"retry_attempts={ra} ignore_exc={ie}]",
+                              {"grid1": [ra, ie, th, mode, list(st)], "tier": tier})
+    chk.count("one_failure_histories", nhist)
+    chk.count("transitions", nhist)
+    chk.count("traces_validated_against_impl", nhist)
+
+
 def _any_worker(job, chk):
     if job[0] == "grid":
         return _grid_worker(job[1:], chk)
+    if job[0] == "grid1":
+        return _grid1_worker(job[1:], chk)
     return _worker(job[1:], chk)
 
 
@@ -445,10 +488,17 @@ def run(chk):
                        "every server holds every key, so a rerouted read still finds a value"]
     jobs = [("bfs", c, chk.tier) for c in configs(chk.tier)]
     jobs += [("grid", (ra, ie, tb), chk.tier) for ra in (1, 2) for ie in (False, True) for tb in (0, 2, 4, 6)]
+    jobs += [("grid1", (ra, ie, th, mode), chk.tier) for ra in (0, 1, 2) for ie in (False, True) for th in (1, 3, 5, 99)
+             for mode in (("refused", "reset") if chk.tier == "quick" else ("refused", "reset", "unreach", "timeout"))]
     runner.parallel(chk, _any_worker, jobs)
 
 
 def replay(detail):
+    if detail.get("grid1"):
+        tmp = runner.Check(PROPERTY, LEVEL, detail.get("tier", "quick"), 0)
+        ra, ie, th, mode, st = detail["grid1"]
+        _grid1_worker(((ra, ie, th, mode), detail.get("tier", "quick")), tmp)
+        return [v["what"] for v in tmp.violations.values()]
     if detail.get("grid"):
         tmp = runner.Check(PROPERTY, LEVEL, detail.get("tier", "quick"), 0)
         ra, ie, tb, b_times = detail["grid"]
